@@ -107,6 +107,26 @@ fn main() {
                 }
             }
         }
+        // HEX -> "HEX WIDTH" pairs: display width (the renderer's measure) of every distinct non-ASCII or control
+        // character of the source; the model's width oracle falls back on their sum for a text it has no entry for
+        "charw" => {
+            use unicode_width::UnicodeWidthStr;
+            for line in stdin.lock().lines() {
+                let line = line.unwrap();
+                let src = unhex(line.trim());
+                let mut seen: Vec<char> = src.chars().filter(|c| !c.is_ascii() || c.is_ascii_control()).collect();
+                seen.sort();
+                seen.dedup();
+                let v: Vec<String> = seen
+                    .iter()
+                    .map(|c| {
+                        let t = c.to_string();
+                        format!("{} {}", hex(&t), UnicodeWidthStr::width(t.as_str()))
+                    })
+                    .collect();
+                writeln!(out, "{}", v.join(" ")).unwrap();
+            }
+        }
         // HEX -> tree dump
         "tree" => {
             for line in stdin.lock().lines() {
